@@ -911,6 +911,9 @@ def _struct_cases(tier):
         C.append((f"full((n,m), fill{fdims})", "full", [("shape", ("n", "m")), A(*fdims)], {}, (1,)))
     C.append(("linspace(scalars)", "linspace", [A(), A(), ("lit", 5)], {}, (0, 1)))
     C.append(("linspace(arrays)", "linspace", [A("n"), A("n"), ("lit", 4)], {}, (0, 1)))
+    # end points that broadcast against each other (scalar against array, column against row, N-D)
+    for ss, st in (((), ("n",)), (("n",), ()), (("n", 1), ("m",)), (("n", "m"), ("m",)), (("n", "m"), ("n", "m")), ((1,), ("n",))):
+        C.append((f"linspace start{ss} stop{st}", "linspace", [A(*ss), A(*st), ("lit", 4)], {}, (0, 1)))
     for sa, sb in ((("n",), ("m",)), (("n", "k"), ("m", "l")), (("n",), ("m", "l")), (("n", "k"), ("m",)), ((), ("m",)), (("n", "k"), ())):
         C.append((f"kron{sa}x{sb}", "kron", [A(*sa), A(*sb)], {}, (0, 1)))
     for n_, ax, dims in ((1, -1, ("n",)), (2, -1, ("n",)), (1, 0, ("n", "m")), (1, 1, ("n", "m")), (2, 0, ("n", "m")), (3, -1, ("n", "m"))):
